@@ -168,8 +168,9 @@ def check_data_consistency(pdf: pd.DataFrame,
     # 1 - A non-detection should not be coincident with a detection
     # 2 - A VV hit should not be coincident with a hit or a non-detection
     for hit_type in [0, -1]:
-        nodets = data[data['type'] == hit_type][['dt', 'ceilo']]
-        dets = data[data['type'] != hit_type][['dt', 'ceilo']]
+        # Note: the index is dropped, since an index level named like a column would make the merge ambiguous
+        nodets = data[data['type'] == hit_type][['dt', 'ceilo']].reset_index(drop=True)
+        dets = data[data['type'] != hit_type][['dt', 'ceilo']].reset_index(drop=True)
         merged = dets.merge(nodets, how='inner', on=['dt', 'ceilo'])
         if len(merged) > 0:
             raise AmpycloudError('Inconsistent input data '
